@@ -562,6 +562,69 @@ def check_C11(tier, rng, rep):
     return rep.finish(tier, rule="for each instrumented client-level call (operators on crossing operands, containment and == between all kinds, float/moment/deepcopy/~/point queries) the uninjected run counts N internal call boundaries; an exception (and KeyboardInterrupt at every 7th point) is raised at sampled k <= N (thorough: 160 per call), with cold and warm caches; after each the operands are compared with the specification record, the query battery, cached orientation, and the call is repeated; recorded mutation events are validated by TLC against Calls", exhaustive=False)
 
 
+
+SIM_NAMES = ["mm", "cm", "x20", "km", "far3", "far6", "rot345", "rot90far"]
+ALLP = {"C01", "C02", "C03", "C04", "C05", "C06", "C07", "C08", "C19"}
+
+
+def check_C12(tier, rng, rep):
+    """results do not depend on position, orientation or unit of length"""
+    from . import queries
+    quick = tier == "quick"
+    rep.add_tlc("ShapeSys/U2corner/r2/frames", models.shapesys_check("U2corner", regs=2, maxobj=4, gens=("m1", "M1", "s1", "r1"), maxframe=2,
+                                                                      props=["ResultIsSetAlgebra", "OperandsUnchanged"], invs=["TypeOK", "Canonical"],
+                                                                      acts=("make", "transform", "bin", "alias"), ops=("or", "and")))
+    o = {"check_c10": False}
+    sims = ["sim-%s-%s" % (n, k) for n in SIM_NAMES for k in ("float", "frac", "quad") if not (n in ("mm", "cm") and k == "quad")]
+    if quick:
+        jobs = pair_jobs(U2, lambda k: [sims[k % len(sims)]], rng, per_universe=46, classes=("T",), opts=o, rowfilter=lambda u, r: r["reaches"])
+        jobs += pair_jobs(U3, lambda k: [sims[(k + 5) % len(sims)]], rng, per_universe=30, classes=("T",), opts=o, rowfilter=lambda u, r: r["reaches"])
+    else:
+        jobs = pair_jobs(U2, sims, rng, classes=("T",), opts=o, rowfilter=lambda u, r: r["reaches"])
+        jobs += pair_jobs(U3, lambda k: [sims[k % len(sims)], sims[(k + 7) % len(sims)]], rng, per_universe=1500, classes=("T",), opts=o, rowfilter=lambda u, r: r["reaches"])
+    # the recorded finding: curved drawings at millimetre scale (fixed rows, always run)
+    jobs += pair_jobs(["U2cross", "U2bite"], ["sim-mm-quad", "sim-cm-quad"], random.Random(1), per_universe=12, classes=("T",), opts=o, rowfilter=lambda u, r: r["reaches"] and r["op"] == "and")
+    res = runner.pool_map(replay.run_case, jobs)
+    rep.add_results("pairs", res, props=ALLP, nontrivial=nontrivial_pair)
+    # containment and point membership under the same maps
+    qj = query_rows(U2, lambda k: [sims[k % len(sims)]], rng, per_universe=14 if quick else 80, classes=("T",))
+    rep.add_results("pairq", runner.pool_map(queries.pairq_case, qj), props=ALLP)
+    psims = [x for x in sims if "-mm-" not in x]
+    pj = region_jobs(U2, lambda k: [psims[(k * 5) % len(psims)]], rng, per_universe=4 if quick else 12, pred=lambda st, r: r != 0)
+    pj += region_jobs(["U2cross"], ["sim-mm-float"], random.Random(1), per_universe=2, pred=lambda st, r: r in (10, 12))   # recorded finding
+    rep.add_results("points", runner.pool_map(queries.points_case, pj), props=ALLP)
+    rep.assumptions.append("every failure of any assertion (region, kind, loops, moments, containment, membership) under a similarity realisation counts as a C12 violation: the same abstract behaviours pass under the untransformed realisations (C01-C08)")
+    return rep.finish(tier, rule="the T-class one-step operator corpus, containment rows and point membership re-executed with atoms constructed under similarity maps: scale 1e-3, 1e-2, 20, 1e5; translation 1e3, 1e6; rotation by the 3-4-5 angle and by 90 degrees far from the origin; polygon float / polygon Fraction / quadratic float; the specification behaviour is the expected result for every map", exhaustive=False)
+
+
+def check_C13(tier, rng, rep):
+    """rational in, exact rational out"""
+    quick = tier == "quick"
+    for un in (["U2cross", "U3hole"] if quick else U2 + U3):
+        rep.add_tlc("PlaneThm/" + un, models.plane_thm(un, ["ThmGreen", "ThmInclExcl"]))
+    o = {"check_c10": False}
+    reals = ["poly-frac", "poly-int", "poly-frac-dense", "poly-frac-rot", "sim-cm-frac", "sim-rot345-frac", "poly-mixed"]
+    exact_reals = reals[:6]
+    if quick:
+        jobs = pair_jobs(U2, lambda k: [exact_reals[k % 6]], rng, per_universe=60, classes=("T",), opts=o)
+        jobs += pair_jobs(U3, lambda k: [exact_reals[k % 6]], rng, per_universe=60, classes=("T",), opts=o)
+        jobs += pair_jobs(U2[2:4], ["poly-mixed"], rng, per_universe=20, classes=("T",), opts=o)
+    else:
+        jobs = pair_jobs(U2, reals, rng, classes=("T",), opts=o)
+        jobs += pair_jobs(U3, lambda k: [exact_reals[k % 6]], rng, classes=("T",), opts=o)
+    res = runner.pool_map(replay.run_case, jobs)
+    rep.add_results("pairs", res, props={"C13", "C04"} , nontrivial=nontrivial_pair)
+    # transformed coordinates under move / scale stay exact
+    sims, jobs = sim_jobs(["U2corner", rng.choice(U3)] if quick else U2 + U3, ["poly-frac", "poly-int", "poly-frac-dense"],
+                          num=16 if quick else 80, depth=8, seed=runner.seed() + 13, opts=o,
+                          acts=("make", "mkreg", "transform", "bin", "copy", "inv"), gens=("m1", "M1", "m2", "M2", "s1", "S1", "s2", "S2"), maxframe=3, regs=3, maxobj=6, constraint="SimDomain")
+    for un, r in sims:
+        rep.add_tlc("ShapeSys-sim/" + un, r)
+    rep.add_results("sim", runner.pool_map(replay.run_case, jobs), props={"C13", "C04", "C09"})
+    rep.assumptions.append("only /venv's Python 3.12 has the repository's dependencies: the 'Python versions' part of the quantifier is not covered")
+    return rep.finish(tier, rule="T-class operator rows and simulated programs with move/scale under int/Fraction realisations (integers, denominators up to 1e4 with derived values below 1e9, rational rotation): every control point of every result must be the exact rational image of its grid point with int/Fraction type, moments the exact rationals; the mixed int/Fraction/float realisation checks closeness and well-formedness only", exhaustive=not quick)
+
+
 def check_C19(tier, rng, rep):
     """direct composite constructors equal operator results"""
     from . import queries
@@ -580,7 +643,7 @@ def check_C19(tier, rng, rep):
 
 
 CHECKS = {"C01": check_C01, "C02": check_C02, "C03": check_C03, "C04": check_C04, "C05": check_C05, "C06": check_C06,
-          "C07": check_C07, "C08": check_C08, "C09": check_C09, "C10": check_C10, "C11": check_C11, "C19": check_C19}
+          "C07": check_C07, "C08": check_C08, "C09": check_C09, "C10": check_C10, "C11": check_C11, "C12": check_C12, "C13": check_C13, "C19": check_C19}
 
 
 
